@@ -1539,7 +1539,11 @@ impl<'a> Walker<'a> {
                                 }
                             }
                         }
+                        return None;
                     }
+                }
+                for a in &args {
+                    self.expr(a, out);
                 }
                 return None;
             }
@@ -1740,7 +1744,9 @@ impl<'a> Walker<'a> {
                 return Self::vty(t);
             }
             "lock" if recv_field.as_deref() == Some("lock") => {
-                self.err("lock not bound to an RAII local", m.span());
+                // a lock guard that is not bound to a named local is a temporary: taken and released again
+                out.push(self.ev("ev_lock", vec![], m, line));
+                out.push(self.ev("ev_unlock", vec![], m, line));
                 return None;
             }
             "deref" | "as_ref" if args.is_empty() => {
